@@ -518,4 +518,64 @@ def conformance(kwargs_factory):
         return False, f"results differ: real {a[:3]} vs skeleton {b[:3]}", len(r.tape)
     if r.traj != traj2:
         return False, "radius/resolution trajectories differ", len(r.tape)
+    conformance.last_classes = classify_tape(r.tape, r.traj)
     return True, "", len(r.tape)
+
+
+def classify_tape(tape, traj):
+    """Map the numeric answers of a real run to the answer classes of the scripted menus (which classes are
+    realisable).  Returns a dict (site, class) -> count."""
+    out = {}
+
+    def add(site, cls):
+        out[(site, cls)] = out.get((site, cls), 0) + 1
+
+    it = iter(traj)
+    rad = res = None
+    pend_merit = None
+    for site, kind, val in tape:
+        if kind == "raise":
+            add(site, "linalg")
+            continue
+        if site == "get_trust_region_step":
+            rad, res = next(it, (rad, res))
+            nstep, tstep = val
+            sn = float(np.linalg.norm(nstep + tstep))
+            if sn == 0:
+                add("step", "zero")
+            elif sn <= 0.1 * res:
+                add("step", "vshort")
+            elif sn <= 0.5 * res:
+                add("step", "short")
+            elif float(np.linalg.norm(nstep)) > 0.64 * rad:
+                add("step", "long_nbig")
+            else:
+                add("step", "long")
+        elif site == "increase_penalty":
+            add("penalty", "same" if val else "changed")
+        elif site == "merit":
+            if pend_merit is None:
+                pend_merit = float(val)
+            else:
+                add("merit_pair", "new>old" if float(val) > pend_merit else "new<=old")
+                pend_merit = None
+        elif site == "get_second_order_correction_step":
+            add("socstep", "zero" if float(np.linalg.norm(val)) == 0 else "nonzero")
+        elif site == "get_reduction_ratio":
+            r = float(val)
+            add("ratio", "<=0" if r <= 0 else ("<=0.1" if r <= 0.1 else ("<=0.7" if r <= 0.7 else ">0.7")))
+        elif site == "get_index_to_remove":
+            k, dist = val
+            if rad is not None:
+                add("rm", "far" if dist > max(rad, 2.0 * res) else "near")
+        elif site == "models.update_interpolation":
+            add("update", "ill" if val else "ok")
+        elif site == "models.reset_models":
+            add("reset", "ok")
+        elif site == "models.fun_alt_grad":
+            add("altgrad", "ok")
+        elif site == "get_geometry_step":
+            add("geostep", "ok")
+        elif site == "shift_x_base":
+            add("shift", "done")
+    return out
